@@ -40,7 +40,8 @@ SCOPES = {
   "hiding": (dict(regions=(0, 3)), dict(position=0.1, anim=0.25, hide=True, nobody=0.1)),
 }
 REGION_TIMINGS = [(None, None), (None, None), (Fraction(0), None), (None, Fraction(10)), (Fraction(1), Fraction(10)), (Fraction(1), None),
-                  (Fraction(0), Fraction(10)), (Fraction(2), Fraction(5)), (None, Fraction(0))]
+                  (Fraction(0), Fraction(10)), (Fraction(2), Fraction(5)), (None, Fraction(0)), (Fraction(1) + Fraction(1, 4000), Fraction(10)),
+                  (Fraction(1), Fraction(10) - Fraction(1, 3000))]
 TARGETS = [0, 0, 5, 10, 10, 20, 30, 40, 45, 49, 50, 51, 60, 70, 80, 90]
 COLORS = [sp.NamedColors.red.value, sp.NamedColors.white.value, sp.ColorType((0, 255, 0, 255)), sp.ColorType((1, 2, 3, 128)),
           sp.NamedColors.transparent.value]
@@ -255,6 +256,17 @@ def d_timings():
   return doc
 
 
+def d_near_timings():
+  """regions whose intervals differ by less than a millisecond (or only beyond the third decimal): they are NOT equal, so they must not
+  be merged -- the text of one would show while only the other is active"""
+  doc, regs, _ = _simple(8)
+  for reg, (b, en) in zip(regs, [(Fraction(1001, 1000), None), (Fraction(10013, 10000), None), (Fraction(1), Fraction(10)), (Fraction(1) + Fraction(1, 3000), Fraction(10)),
+                                 (Fraction(1), Fraction(10) + Fraction(1, 2000)), (Fraction(2, 3), None), (Fraction(667, 1000), None), (None, Fraction(20001, 2000))]):
+    reg.set_begin(b)
+    reg.set_end(en)
+  return doc
+
+
 ALIGN_GRID = [(0, 40), (10, 20), (30, 19), (30, 21), (49, 10), (51, 10), (0, 100), (60, 30), (45, 4), (0, 49), (0, 51), (20, 70)]
 
 
@@ -368,7 +380,7 @@ def d_initial_geometry(unit):
 HE, VE = sp.PositionType.HEdge, sp.PositionType.VEdge
 DIRECTED = {
   "animation": d_animation, "no-body": d_no_body, "no-regions": d_no_regions, "region-end-0": d_region_end_0, "unit-test-merge": d_unit_test_merge,
-  "timings": d_timings, "align-merge": d_align_merge, "all-styles": d_all_styles, "colors": d_colors, "writing-modes": d_writing_modes,
+  "timings": d_timings, "near-timings": d_near_timings, "align-merge": d_align_merge, "all-styles": d_all_styles, "colors": d_colors, "writing-modes": d_writing_modes,
   "nested-conflict": d_nested_conflict, "region-text-align": d_region_text_align, "initial-position": d_initial_position,
   "initial-geometry:pct": d_initial_geometry("pct"), "initial-geometry:px": d_initial_geometry("px"),
   "position:no-extent": d_position(None, ((10, U.pct), (10, U.pct), HE.left, VE.top)),
